@@ -1370,29 +1370,15 @@ func (iv *Inv) validatedByDenomCall(fn *ssa.Function, at ssa.Instruction, d ssa.
 			if !OnSuccessEdge(fn, at, call) {
 				continue
 			}
-			p := callee.Params[i]
-			// callee validates p (or every element of p)
-			for _, s2 := range cg.Sites[callee] {
-				c2 := siteCall(s2)
-				if c2 == nil || !hasSuffixAny(callName(c2.Common()), "types.ValidateDenom") {
-					continue
-				}
-				arg := stripConv(c2.Common().Args[0])
-				elem := false
-				if u, ok := arg.(*ssa.UnOp); ok {
-					if ia, ok := u.X.(*ssa.IndexAddr); ok && ia.X == ssa.Value(p) {
-						elem = true
-					}
-				}
-				if arg == ssa.Value(p) || elem {
-					for _, e := range NilEdges(callee, errValues(callee, c2), false) {
-						if FailsFrom(e.To()) {
-							return true, "g2: validated by sdk.ValidateDenom in " + funcName(callee)
-						}
-					}
-				}
+			if iv.calleeValidatesDenomParam(callee, callee.Params[i]) {
+				return true, "g2: validated by sdk.ValidateDenom in " + funcName(callee)
 			}
 		}
+	}
+	// the function is a literal handed to a shared body together with a validating literal which that body runs, and
+	// checks, before it runs this one
+	if ok, how := iv.validatedBySiblingLiteral(fn, cont); ok {
+		return true, how
 	}
 	// the value (or the slice it is an element of) was handed in as a parameter: established at every call site on the
 	// inventoried trees
@@ -1419,6 +1405,209 @@ func (iv *Inv) validatedByDenomCall(fn *ssa.Function, at ssa.Instruction, d ssa.
 				hows = append(hows, how+" before the call in "+funcName(cs.Caller))
 			}
 			return true, strings.Join(hows, "; ")
+		}
+	}
+	return false, ""
+}
+
+// calleeValidatesDenomParam: the callee hands p (or every element of p) to sdk.ValidateDenom and fails when that fails.
+func (iv *Inv) calleeValidatesDenomParam(callee *ssa.Function, p *ssa.Parameter) bool {
+	for _, s2 := range iv.w.CG().Sites[callee] {
+		c2 := siteCall(s2)
+		if c2 == nil || !hasSuffixAny(callName(c2.Common()), "types.ValidateDenom") {
+			continue
+		}
+		arg := stripConv(c2.Common().Args[0])
+		elem := false
+		if u, ok := arg.(*ssa.UnOp); ok {
+			if ia, ok := u.X.(*ssa.IndexAddr); ok && ia.X == ssa.Value(p) {
+				elem = true
+			}
+		}
+		if arg == ssa.Value(p) || elem {
+			for _, e := range NilEdges(callee, errValues(callee, c2), false) {
+				if FailsFrom(e.To()) {
+					return true
+				}
+			}
+		}
+	}
+	return false
+}
+
+// capturedPath names a value of a function literal by the variable of the enclosing function it is selected from:
+// the captured variable's binding at the literal's creation plus the fields selected. ok is false for anything else.
+func capturedPath(lit *ssa.Function, mc *ssa.MakeClosure, v ssa.Value) (root ssa.Value, fields string, ok bool) {
+	for i := 0; i < 12; i++ {
+		switch x := v.(type) {
+		case *ssa.UnOp:
+			if x.Op != token.MUL {
+				return nil, "", false
+			}
+			v = x.X
+		case *ssa.FieldAddr:
+			fields = fieldElem(x.X.Type(), x.Field) + fields
+			v = x.X
+		case *ssa.Field:
+			fields = fieldElem(x.X.Type(), x.Field) + fields
+			v = x.X
+		case *ssa.FreeVar:
+			for j, fv := range lit.FreeVars {
+				if fv == x && j < len(mc.Bindings) {
+					b := mc.Bindings[j]
+					if al, isAl := b.(*ssa.Alloc); isAl {
+						// a captured variable: it must be assigned once (a spilled parameter or a single definition)
+						n := 0
+						for _, ref := range *al.Referrers() {
+							if st, isSt := ref.(*ssa.Store); isSt && st.Addr == ssa.Value(al) {
+								n++
+							}
+						}
+						if n != 1 {
+							return nil, "", false
+						}
+					}
+					return b, fields, true
+				}
+			}
+			return nil, "", false
+		default:
+			return nil, "", false
+		}
+	}
+	return nil, "", false
+}
+
+// validatedBySiblingLiteral: fn is a function literal that the enclosing function P hands to a shared body H next to
+// another literal L; H calls L and, only on the success edge of that call, calls fn; L returns the error of a
+// validation function to which it hands the very container (the same captured variable and fields) and which
+// validates it as denominations.
+func (iv *Inv) validatedBySiblingLiteral(fn *ssa.Function, cont ssa.Value) (bool, string) {
+	P := fn.Parent()
+	if P == nil {
+		return false, ""
+	}
+	paramCalls := func(p *ssa.Parameter) ([]*ssa.Call, bool) {
+		var calls []*ssa.Call
+		if p.Referrers() == nil {
+			return nil, false
+		}
+		for _, ref := range *p.Referrers() {
+			switch r := ref.(type) {
+			case *ssa.Call:
+				if r.Common().Value != ssa.Value(p) || r.Common().IsInvoke() {
+					return nil, false
+				}
+				calls = append(calls, r)
+			case *ssa.DebugRef:
+			default:
+				return nil, false
+			}
+		}
+		return calls, len(calls) > 0
+	}
+	for _, b := range P.Blocks {
+		for _, in := range b.Instrs {
+			mc, ok := in.(*ssa.MakeClosure)
+			if !ok || mc.Fn != ssa.Value(fn) || mc.Referrers() == nil {
+				continue
+			}
+			root, fields, ok := capturedPath(fn, mc, cont)
+			if !ok {
+				continue
+			}
+			for _, ref := range *mc.Referrers() {
+				cs, ok := ref.(*ssa.Call)
+				if !ok {
+					return false, ""
+				}
+				H := cs.Common().StaticCallee()
+				if H == nil || H.Blocks == nil || cs.Common().IsInvoke() {
+					return false, ""
+				}
+				args := cs.Common().Args
+				found := ""
+				for j, a := range args {
+					if a != ssa.Value(mc) || j >= len(H.Params) {
+						continue
+					}
+					runs, ok := paramCalls(H.Params[j])
+					if !ok {
+						return false, ""
+					}
+					for i, a2 := range args {
+						mi, isMC := a2.(*ssa.MakeClosure)
+						if !isMC || i == j || i >= len(H.Params) {
+							continue
+						}
+						L, _ := mi.Fn.(*ssa.Function)
+						if L == nil || L.Blocks == nil || L.Parent() != P {
+							continue
+						}
+						checks, ok := paramCalls(H.Params[i])
+						if !ok {
+							continue
+						}
+						// every run of fn lies on the success edge of a run of L
+						guarded := true
+						for _, run := range runs {
+							g := false
+							for _, chk := range checks {
+								if OnSuccessEdge(H, run, chk) {
+									g = true
+								}
+							}
+							if !g {
+								guarded = false
+							}
+						}
+						if !guarded {
+							continue
+						}
+						// L returns the error of a validation call that receives the same container
+						for _, vs := range iv.w.CG().Sites[L] {
+							vc := siteCall(vs)
+							if vc == nil || vs.Static == nil || vs.Invoke || vs.Static.Blocks == nil {
+								continue
+							}
+							for ai, va := range vc.Common().Args {
+								r2, f2, ok2 := capturedPath(L, mi, va)
+								if !ok2 || r2 != root || f2 != fields || ai >= len(vs.Static.Params) {
+									continue
+								}
+								if !iv.calleeValidatesDenomParam(vs.Static, vs.Static.Params[ai]) {
+									continue
+								}
+								errOK := true
+								rets := Returns(L)
+								for _, ret := range rets {
+									hasErr := false
+									for _, rv := range retVals(ret) {
+										if !isErrorType(rv.Type()) {
+											continue
+										}
+										hasErr = true
+										ex, isEx := rv.(*ssa.Extract)
+										if !(isEx && ex.Tuple == ssa.Value(vc)) && rv != ssa.Value(vc) {
+											errOK = false
+										}
+									}
+									if !hasErr {
+										errOK = false
+									}
+								}
+								if errOK && len(rets) > 0 {
+									found = "g2: validated by sdk.ValidateDenom in " + funcName(vs.Static) + ", called by the literal " + funcName(L) + " whose success " + funcName(H) + " checks before it runs " + funcName(fn)
+								}
+							}
+						}
+					}
+				}
+				if found == "" {
+					return false, ""
+				}
+				return true, found
+			}
 		}
 	}
 	return false, ""
